@@ -17,17 +17,17 @@ Proof. destruct us_; cbn; intros H; inversion H; reflexivity. Qed.
 
 Lemma generate_deadline jg f release index next us_ tg next' us' :
   generate_task_graph jg f release index next us_ = Ok (tg, next', us') ->
-  exists ct u1 u2 d2, completion_time jg = Ok ct /\ us_ = u1 :: u2 :: us' /\
+  exists created ct u1 u2 d2, deadline_base jg f (tg_graph tg) created = Ok ct /\ us_ = u1 :: u2 :: us' /\
     et_add release (et_fuzz ct u2 (if_minb f) (if_maxb f)) = Ok d2 /\
     Forall (fun t => t_deadline t = d2) (tg_tasks tg) /\ tg_index tg = index.
 Proof.
   intros H. unfold generate_task_graph in H.
   destruct (jg_jobs jg) as [|j0 jobs] eqn:Ej; [discriminate|].
-  do 14 step H.
+  do 15 step H.
   match type of H with (if ?c then _ else _) = _ => destruct c; [discriminate|] end.
   inversion H; subst; clear H.
   repeat match goal with E : take_draw _ = Ok _ |- _ => apply take_draw_inv in E end. subst.
-  do 4 eexists. split; [reflexivity|]. split; [reflexivity|]. split; [eassumption|].
+  do 5 eexists. cbn [tg_graph]. split; [eassumption|]. split; [reflexivity|]. split; [eassumption|].
   split; [|reflexivity]. cbn [tg_tasks]. apply Forall_forall. intros t Ht. apply in_map_iff in Ht.
   destruct Ht as [n [Hn _]]. subst t. destruct (find _ _); reflexivity.
 Qed.
@@ -36,12 +36,12 @@ Qed.
    property's "release + critical-path (or SLO) time stretched within the declared variance and bounds" *)
 Lemma generate_deadline_us jg f release index next us_ tg next' us' :
   generate_task_graph jg f release index next us_ = Ok (tg, next', us') ->
-  exists ct u1 u2, completion_time jg = Ok ct /\ us_ = u1 :: u2 :: us' /\
+  exists created ct u1 u2, deadline_base jg f (tg_graph tg) created = Ok ct /\ us_ = u1 :: u2 :: us' /\
     Forall (fun t => us (t_deadline t) =
                      us release + fuzz_time (et_time ct) u2 (if_minb f) (if_maxb f) * unit_value (et_unit ct)) (tg_tasks tg).
 Proof.
-  intros H. destruct (generate_deadline _ _ _ _ _ _ _ _ _ H) as [ct [u1 [u2 [d2 [Hc [Hu [Hd [Hall _]]]]]]]].
-  exists ct, u1, u2. split; [exact Hc|]. split; [exact Hu|].
+  intros H. destruct (generate_deadline _ _ _ _ _ _ _ _ _ H) as [created [ct [u1 [u2 [d2 [Hc [Hu [Hd [Hall _]]]]]]]]].
+  exists created, ct, u1, u2. split; [exact Hc|]. split; [exact Hu|].
   destruct (et_add_spec release (et_fuzz ct u2 (if_minb f) (if_maxb f))) as [r [Hr [Hus _]]].
   rewrite Hr in Hd. inversion Hd; subst. eapply Forall_impl; [|exact Hall]. intros t Ht. rewrite Ht, Hus.
   unfold us at 2, et_fuzz. cbn [et_time et_unit]. reflexivity.
@@ -75,11 +75,33 @@ Proof.
   eapply (G _ (Ok et_zero)); [intros t Ht; inversion Ht; reflexivity|exact H].
 Qed.
 
-(* The interval the code REQUESTS from random.uniform for (minv, maxv) = the graph's variance (or the flags'
-   default) is tied to the source by the S-uniform-request stream; the theorem holds for every draw inside it. *)
-Theorem deadline_within_bounds jg f release index next us_ tg next' us' ct minv maxv :
+Lemma bp_length_us jg tgg created ct : bp_length jg tgg created = Ok ct -> et_unit ct = U_US.
+Proof.
+  unfold bp_length. intros H. step H. step H.
+  assert (G : forall path (acc : result etime), (forall t, acc = Ok t -> et_unit t = U_US) ->
+     fold_left (fun acc n => bind acc (fun t =>
+        match task_job jg created n with
+        | None => Err 5
+        | Some j => bind (slowest_runtime j) (fun r => et_add t r)
+        end)) path acc = Ok ct -> et_unit ct = U_US).
+  { induction path as [|i path IH]; intros acc Hacc Hf; cbn [fold_left] in Hf; [apply Hacc; exact Hf|].
+    apply IH in Hf; [exact Hf|]. intros t Ht. destruct acc as [t0|]; cbn [bind] in Ht; [|discriminate].
+    specialize (Hacc t0 eq_refl). destruct (task_job jg created i) as [j|]; [|discriminate].
+    destruct (slowest_runtime j) as [r|]; cbn [bind] in Ht; [|discriminate]. eapply et_add_us_unit; eassumption. }
+  eapply (G _ (Ok et_zero)); [intros t Ht; inversion Ht; reflexivity|exact H].
+Qed.
+
+Lemma deadline_base_us jg f tgg created ct : deadline_base jg f tgg created = Ok ct -> et_unit ct = U_US.
+Proof. unfold deadline_base. destruct (if_bpd f); [apply bp_length_us|apply completion_time_us]. Qed.
+
+(* The deadline base is JobGraph.completion_time, or with --use_branch_predicated_deadlines the slowest-strategy
+   runtimes along the longest path over the tasks of non-zero probability.  The interval the code REQUESTS from
+   random.uniform for (minv, maxv) = the graph's variance (or the flags' default) is tied to the source by the
+   S-uniform-request stream; the theorem holds for every draw inside it. *)
+Theorem deadline_within_bounds jg f release index next us_ tg next' us' :
   generate_task_graph jg f release index next us_ = Ok (tg, next', us') ->
-  completion_time jg = Ok ct ->
+  exists created ct, deadline_base jg f (tg_graph tg) created = Ok ct /\ et_unit ct = U_US /\
+  forall minv maxv,
   Z.abs (et_time ct) < 2 ^ 53 ->
   (forall u, nth_error us_ 1 = Some u -> uniform_contract (et_time ct) minv maxv u = true) ->
   Z.abs (et_time ct + clampZ (if_minb f) (if_maxb f) (var_lo (et_time ct) minv maxv)) <= 2 ^ 53 ->
@@ -88,10 +110,13 @@ Theorem deadline_within_bounds jg f release index next us_ tg next' us' ct minv 
     us release + et_time ct + clampZ (if_minb f) (if_maxb f) (var_lo (et_time ct) minv maxv) <= us (t_deadline t)
     <= us release + et_time ct + clampZ (if_minb f) (if_maxb f) (var_hi (et_time ct) minv maxv)) (tg_tasks tg).
 Proof.
-  intros H Hct Habs Hcon Hlo Hhi. pose proof (completion_time_us _ _ Hct) as Hu.
-  destruct (generate_deadline_us _ _ _ _ _ _ _ _ _ H) as [ct' [u1 [u2 [Hc [Hus Hall]]]]].
-  rewrite Hct in Hc. inversion Hc; subst ct'. subst us_.
-  specialize (Hcon u2 eq_refl).
+  intros H. destruct (generate_deadline_us _ _ _ _ _ _ _ _ _ H) as [created [ct [u1 [u2 [Hc [Hus Hall]]]]]].
+  exists created, ct. pose proof (deadline_base_us _ _ _ _ _ Hc) as Hu. split; [exact Hc|]. split; [exact Hu|].
+  intros minv maxv Habs Hcon Hlo Hhi. subst us_. specialize (Hcon u2 eq_refl).
   pose proof (fuzz_time_bounds (et_time ct) u2 minv maxv (if_minb f) (if_maxb f) Habs Hcon Hlo Hhi) as Hb.
   eapply Forall_impl; [|exact Hall]. intros t Ht. cbn beta in Ht. rewrite Ht, Hu. change (unit_value U_US) with 1. lia.
 Qed.
+
+(* without the flag the base is the job graph's completion time *)
+Lemma deadline_base_default jg f tgg created : if_bpd f = false -> deadline_base jg f tgg created = completion_time jg.
+Proof. intros H. unfold deadline_base. rewrite H. reflexivity. Qed.
